@@ -186,6 +186,46 @@ def _open(I, args, kw):
     return VHook("file", {"write": write, "close": noop, "flush": noop})
 
 
+# ---- tiny private file-name model for scripts/rotate_logs.py (C16 rotation).  NOT the general file-system model
+# (pyvc/fsmodel.py is being built for C08); it only knows which names exist and what they hold:
+# ghost `rfs: Dict[str, Un[Blob]]` declared by the contract.
+
+def _rfs(I, what):
+    m = I.ghost_env.lookup("rfs")
+    if m is None:
+        raise Unsupported("%s: declare ghost rfs (Dict[str, Un[Blob]]) in the contract" % what)
+    return m
+
+
+def _as_path_str(I, v):
+    return v if isinstance(v, VStr) else I.to_str(v)
+
+
+def _path_exists(I, args, kw):
+    """os.path.exists(p) == p names a file in the ghost name space `rfs`"""
+    m = _rfs(I, "os.path.exists")
+    return VBool(z3.Select(m.dom, _as_path_str(I, args[0]).e))
+
+
+def _os_remove(I, args, kw):
+    """os.remove(p): FileNotFoundError when p is absent; otherwise removes exactly p, or fails with some other
+    OSError (permissions ...) leaving everything as it was"""
+    m = _rfs(I, "os.remove")
+    p = _as_path_str(I, args[0])
+    if not I.path.branch(z3.Select(m.dom, p.e)):
+        raise PyRaise(VExc("FileNotFoundError", [VStr("remove")]))
+    _may_raise_oserror("remove")(I, [], {})
+    B.map_remove(I, m, p.e)
+    return VNone()
+
+
+def _pathlib_path(I, args, kw):
+    """pathlib.Path(s): a path object is identified with its string"""
+    if len(args) != 1:
+        raise Unsupported("Path() arity")
+    return _as_path_str(I, args[0])
+
+
 SPEC_FUNCS = {"env_get": _environ_get, "os_basename": _basename, "os_join": _path_join, "json_dumps": _json_dumps,
               "open": _open}
 
@@ -193,6 +233,9 @@ TABLE = {
     ("os", "makedirs"): _may_raise_oserror("makedirs"),
     ("os.path", "basename"): _basename,
     ("os.path", "join"): _path_join,
+    ("os.path", "exists"): _path_exists,
+    ("os", "remove"): _os_remove,
+    ("pathlib", "Path"): _pathlib_path,
     ("json", "dumps"): _json_dumps,
     ("contextvars", "ContextVar"): _ctxvar,
     ("math", "sqrt"): _sqrt,
